@@ -174,7 +174,22 @@ def main():
         reps = max(1, int(os.environ.get('VERIF_THOROUGH_SEEDS', '4'))) if tier == 'thorough' else 1
         seeds = [seed + 104729 * k for k in range(reps)]
         for sd in seeds:
-            mod.run(R, tier, sd, driver_ok)
+            try:
+                mod.run(R, tier, sd, driver_ok)
+            except Exception as e:
+                # an exception that escapes from the LIBRARY on one of the harness's well-formed calls (the harness wraps the
+                # calls whose failure modes it judges; everything else is expected to return) is a failure of the property
+                # on the implementation, not an infrastructure error; an exception raised by the harness itself still is
+                tb = traceback.extract_tb(e.__traceback__)
+                inner = tb[-1].filename if tb else ''
+                lib = os.path.join(os.environ.get('VERIF_REPO', '/repo'), 'metric_learn')
+                in_lib = [f for f in tb if f.filename.startswith(lib)]
+                if not in_lib:
+                    raise
+                where = in_lib[-1]
+                R.violation(f'library-raises/{type(e).__name__}/{os.path.basename(where.filename)}:{where.name}',
+                            f'{type(e).__name__} escaped from {os.path.basename(where.filename)}:{where.lineno} ({where.name}) on a well-formed call of the harness: {str(e)[:200]}',
+                            {'seed': sd, 'traceback': traceback.format_exc()[-3000:]})
         R.extra['seeds_explored'] = seeds
         rc = R.finish()
     except subprocess.TimeoutExpired:
